@@ -204,7 +204,8 @@ MANIFEST = {
             "matching and shock solver arbitrary functions of vw: the runaway sentinel is "
             "returned only when the code's own end-point tests say so (no front in [cs+(Tn),vJ], "
             "positive mismatch at the top, or an unconverged matching of this call), the static "
-            "sentinel only with negative mismatch at vMin, otherwise a bracketed zero in (vMin,vJ).",
+            "sentinel only with negative mismatch at vMin, otherwise a bracketed zero in (vMin,vJ)."
+            " WallGoManager.wallSpeedLTE is the LTE velocity of the hydrodynamics of the current set-up across three set-ups of one manager.",
     "note": "The 'one sign over the whole window' part of the sentinel statement needs "
             "monotonicity and is not decided; iterations are contract stubs.",
 }
